@@ -868,6 +868,8 @@ def value_attr(I, obj, name):
             raise AnalysisError(f"{obj.name}.{name} is not modelled")
         if not name.startswith("__"):
             return Builtin(f"{obj.name}.{name}", lambda self_, *a, **k: I.call(I.getattr(self_, name), list(a), dict(k)))
+    if isinstance(obj, peg.PPCommon):
+        return obj.attr(name)
     if isinstance(obj, peg.PE):
         m = obj.methods(I)
         if name in m:
